@@ -304,11 +304,12 @@ CHECKS['C06'] = {
              'around, no re-distribution afterwards) the effective action is computed by the harness from the generated '
              'rules and the true placement before the disturbance (precedence, promotion, application-level strategies '
              'only for a child crash) and compared after a quiet suffix with the requests emitted and the true final '
-             'placement. The handler-only state machine of the design (part a) is not built.'),
+             'placement. Part (a): rule-based state machine on the real RunningFailureHandler (Starter / Stopper replaced by recorders) against a reference model of precedence, promotion, exactly-once trigger and deferral.'),
     'design_ref': 'DESIGN.md 5/C06',
     'note': CLUSTER_NOTE,
-    'technique': 'Hypothesis-generated fault histories on a cluster simulator, end-state and request oracle from a '
-                 'harness-side reference of the strategy semantics',
+    'technique': 'Hypothesis-generated fault histories on a cluster simulator (end-state and request oracle from a '
+                 'harness-side reference of the strategy semantics) + rule-based state machine of the failure handler '
+                 'against a reference model',
 }
 
 HOOK_COMMITS = []
